@@ -111,7 +111,7 @@ func Scenarios(cfg *common.Config) []issuer.Params {
 	n := cfg.Pick(10, 60)
 	for i := 0; i < n; i++ {
 		p := issuer.Params{NClaims: sizes[i%len(sizes)], NRevoked: []int{0, 3, 0}[i%3], OmitZero: i%2 == 1,
-			RootPos: []string{"index", "value"}[(i/2)%2], Updatable: i%5 == 0}
+			RootPos: []string{"index", "value"}[(i/2)%2], SubjectPos: []string{"index", "value", "none"}[i%3], Updatable: i%5 == 0}
 		if cfg.Thorough() && i >= len(sizes) {
 			p.NClaims = rng.Intn(200)
 		}
